@@ -10,6 +10,8 @@ OBLIGATIONS = [
 ]
 OBLIGATIONS.append(dict(id='C05.orderby.parse', engine='V', verus_fn='Parser::parse_order_by', label='C05.orderby.parse', complete=True, bound=None, units=[], harness='verus:Parser::parse_order_by', tier='quick',
     desc='for every token vector: on success the key list and the direction list of the real parse_order_by have equal length; positional keys are bounds-checked (index in range proved), `desc` never underflows'))
+OBLIGATIONS.append(dict(id='C05.key.numeric.detect', engine='V', verus_fn='Expr::contains_numeric_field', label='C05.key.numeric.detect', complete=True, bound=None, units=[], harness='verus:Expr::contains_numeric_field', tier='quick',
+    desc='real Expr::contains_numeric / contains_numeric_field (extracted verbatim), key expressions of any depth: a sort key is compared numerically exactly when a numeric column or numeric function occurs in it - on EITHER side of an operator (`1 + size` like `size + 1`)'))
 CANARIES = [dict(harness='verif_frag::criteria::canary_criteria_must_fail', units=['criteria']), dict(harness='field::verif_kani::canary_field_must_fail', units=['fieldclass'])]
 ASSUMPTIONS = ['per-key comparisons (parse_filesize / parse_datetime / T::cmp) are total orders; they enter the fragments as symbolic Ordering values', 'cmp(b, a) == cmp(a, b).reverse() for the per-key comparison (used only if the source swaps the operands)']
 NOT_COVERED = ['that the buffered rows come out in Criteria order and form a permutation (TopN / BTreeMap: beyond CBMC and Verus here)', 'date key comparison (parse_datetime), the text -> number step of numeric keys (parse_filesize: C14)', 'Expr::contains_numeric / contains_datetime on expression keys', 'check_file building the criteria vector']
